@@ -245,3 +245,82 @@ def rule_lqibe(ctx, cfg, prog):
     fp = [c for c in pr.calls(kg['body']) if c['name'] == 'from_projective']
     okk = okk and len(fp) == 1 and pr.norm_obj(pr.canon(fp[0]['this'])) == 'P:sk.sq' and pr.canon(fp[0]['args'][0]) == pr.canon(muls[0]['this'])
     ctx.ob('R-PAIR', okk, 'roles|keygen', loc_str(kg), 'lqibe::keygen must set sk.sq = msk.s * id.q', cfg=cfg)
+
+
+# ---------------------------------------------------------------- C13
+def rule_signature_structure(ctx, cfg, prog):
+    sp = prog.fn_by_qn(WK + 'sign_precomputed')
+    vp = prog.fn_by_qn(WK + 'verify_precomputed')
+    ctx.require(len(sp) == 1 and len(vp) == 1, 'wkdibe::sign_precomputed / verify_precomputed not found')
+    sp, vp = sp[0], vp[0]
+
+    def binding(f):
+        """local L with L.multiply(params.hsig, message); L.add(L, precomputed.prodexp)"""
+        out = []
+        for c in pr.calls(f['body']):
+            if c['name'] == 'multiply' and [pr.norm_obj(pr.canon(a)) for a in c['args']] == ['P:params.hsig', 'P:message']:
+                L = pr.canon(c['this'])
+                adds = [a for a in pr.calls(f['body']) if a['name'] == 'add' and pr.canon(a['this']) == L and
+                        [pr.norm_obj(pr.canon(x)) for x in a['args']] == [L, 'P:precomputed.prodexp']]
+                if adds:
+                    out.append(L)
+        return out
+    bs, bv = binding(sp), binding(vp)
+    ctx.ob('R-PAIR', len(bs) == 1 and len(bv) == 1, 'sig|binding', loc_str(vp),
+           'signer and verifier must bind the message the same way (hsig^message * prodexp): signer %s, verifier %s' % (bs, bv), cfg=cfg,
+           sample=dict(config=cfg, signer_term=bs, verifier_term=bv))
+    # the signer also binds the message through the key's own signature component
+    ok = any(c['name'] == 'multiply' and [pr.norm_obj(pr.canon(a)) for a in c['args']] == ['P:sk.bsig', 'P:message'] and
+             pr.norm_obj(pr.canon(c['this'])) == 'P:signature.a0' for c in pr.calls(sp['body']))
+    ctx.ob('R-PAIR', ok, 'sig|bsig', loc_str(sp), 'sign_precomputed must start a0 from sk.bsig^message', cfg=cfg)
+    # verifier: ratio of exactly two pairings compared with the public pairing value
+    lp = {}
+    for c in pr.calls(vp['body']):
+        if c['name'] == 'from_projective' and c.get('this') is not None:
+            lp[pr.canon(c['this'])] = pr.norm_obj(pr.canon(c['args'][0]))
+    negs = [pr.canon(c['this']) for c in pr.calls(vp['body']) if c['name'] == 'negate' and pr.canon(c['this']) == pr.canon(c['args'][0])]
+    asg = {}
+    for x in walk(vp['body']):
+        if x.get('k') == 'assign' and '.g' in pr.canon(x['lhs']):
+            asg[pr.norm_obj(pr.canon(x['lhs']))] = lp.get(pr.norm_obj(pr.canon(x['rhs'])).lstrip('&'), pr.norm_obj(pr.canon(x['rhs'])))
+    pairs = sorted(asg.items())
+    want_pairs = {('P:signature.a0', 'P:params.g'), (bv[0] if bv else '?', 'P:signature.a1')}
+    got_pairs = set()
+    keys = sorted(set(k.rsplit('.', 1)[0] for k in asg))
+    for k in keys:
+        got_pairs.add((asg.get(k + '.g1'), asg.get(k + '.g2')))
+    pp = [c for c in pr.calls(vp['body']) if c['name'] == 'pairing_product']
+    okp = len(pp) == 1 and strip(pp[0]['args'][2]).get('cv') == '2' and strip(pp[0]['args'][4]).get('cv') == '0'
+    rets = [x for x in walk(vp['body']) if x.get('k') == 'return']
+    okr = len(rets) == 1 and any(c['name'] == 'equal' and 'P:params.pairing' in [pr.norm_obj(pr.canon(a)) for a in c['args']] and
+                                 pr.canon(pp[0]['args'][0]) in [pr.canon(a) for a in c['args']] for c in pr.calls(rets[0])) if pp else False
+    okn = len(negs) == 1 and lp.get(negs[0]) == (bv[0] if bv else None)
+    ctx.ob('R-PAIR', got_pairs == want_pairs and okp and okr and okn, 'sig|equation', loc_str(vp),
+           'verify_precomputed must return equal(e(a0, g) * e(-(hsig^m * prodexp), a1), params.pairing): pairs %s, product of two=%s, '
+           'verdict=%s, one negation of the bound term=%s' % (sorted(got_pairs, key=str), okp, okr, okn), cfg=cfg)
+    # free-slot fill loop of the signer: cursor k advances past smaller indices, stops at the end, consumes a match
+    g = CFG(sp)
+    loops = [(h, lp_) for (h, lp_) in g.loops if lp_.get('k') == 'for']
+    ctx.require(len(loops) == 1, 'sign_precomputed: fill loop not found')
+    h, lp_ = loops[0]
+    kid = None
+    for x in walk(lp_['body']):
+        if x.get('k') == 'index' and pr.norm_obj(pr.canon(x['base'])).endswith('attrs.attrs'):
+            kid = strip(x['idx']).get('id')
+    ok = kid is not None
+    if ok:
+        for p in g.paths(h, {h}, allow_back_edges=1):
+            if p[-1][0] != h:
+                continue
+            matched = any(g.nodes[nid].kind == 'cond' and lab is True and strip(g.nodes[nid].ast).get('op') == '==' and
+                          '.idx' in pr.canon(strip(g.nodes[nid].ast)['lhs']) and '.idx' in pr.canon(strip(g.nodes[nid].ast)['rhs']) for (nid, lab) in p)
+            inc = sum(incs_in(g.nodes[nid].ast, kid) for (nid, lab) in p if g.nodes[nid].kind == 'stmt' and g.nodes[nid].ast is not None)
+            contributes = any(c['name'] == 'multiply' and any('.hexp' in pr.canon(a) for a in c['args']) for (nid, lab) in p
+                              if g.nodes[nid].kind == 'stmt' and g.nodes[nid].ast is not None for c in pr.calls(g.nodes[nid].ast))
+            if matched and not (inc >= 1 and contributes):
+                ok = False
+            if not matched and contributes:
+                ok = False
+    ctx.ob('R-CURSOR', ok, 'sig|fill', loc_str(lp_),
+           'sign_precomputed: a free slot whose index equals the current attribute must contribute b[i]^id and advance the attribute cursor; '
+           'no other path may contribute', cfg=cfg)
